@@ -438,6 +438,8 @@ def fmt(s):
 
 
 def run(repo: Repo, rep, tier: str):
+    from vlib import memo
+    rep.guarded(memo.check, repo, rep, "C04-R9", [(SPOT, "SpotExchange")], "spot ledger")
     rep.exhaustive = True
     rep.assume("sum_floats/subtract_floats are exact (decimal) addition/subtraction - checked structurally in R5 - and are modelled as + and - over the rationals")
     rep.assume("backtest mode (is_livetrading False); base/quote/sums/qty/price/fee are non-negative reals")
